@@ -119,6 +119,27 @@ func objectFixture(depth int, vals ...any) fixture {
 var fluentNames = map[string]bool{"Add": true, "Insert": true, "Replace": true, "Delete": true, "Pop": true, "Clear": true, "Sort": true, "Reverse": true, "Set": true, "Unset": true,
 	"ForEachAsync": true, "SetTF": true, "UnsetTF": true, "Ego": true}
 
+func init() {
+	drive.DerivedList = func(level int, vals ...any) at.List {
+		switch level {
+		case 0:
+			return NewDList(vals...)
+		case 1:
+			return NewDDList(vals...)
+		}
+		return NewDDDList(vals...)
+	}
+	drive.DerivedObject = func(level int, pairs ...any) at.Object {
+		switch level {
+		case 0:
+			return NewDObject(pairs...)
+		case 1:
+			return NewDDObject(pairs...)
+		}
+		return NewDDDObject(pairs...)
+	}
+}
+
 func isFluent(name string) bool {
 	return fluentNames[name] || strings.HasPrefix(name, "ForEach")
 }
